@@ -120,14 +120,16 @@ Print Assumptions c06_lifetime_two.
 Example c06_lifetime_example :
   let s0 := pr_init 100 [(5, (c_ReliabilityTypeTimed, 500))] true false in
   let c := mkPrChunk 100 5 0 0 false true true 1 false 0 false false 0 in
-  match pr_run s0 [PrSend c 0] with
-  | Some (s1, _) =>
-      let evs := [PrT3; PrRtx 100 1000000000; PrGather; PrT3; PrGather] in
-      pr_run_ok (pr_lt_side 5 true) s1 evs /\ pr_count_late 500 0 s1 evs = 1%nat /\
-      match pr_run s1 evs with Some (s2, outs) => map pr_nsent (pr_infl s2) = [2] /\ outs = [PrOutFwd 100 [(5, 0)]] | None => False end
+  let evs := [PrSend c 0; PrT3; PrRtx 100 1000000000; PrGather; PrT3; PrGather] in
+  pr_run_ok (pr_lt_side 5 true) s0 evs /\ pr_count_late 500 0 s0 evs = 1%nat /\
+  match pr_run s0 evs with
+  | Some (s2, outs) => map pr_nsent (pr_infl s2) = [2] /\ outs = [PrOutFwd 100 [(5, 0)]]
   | None => False
   end.
-Proof. cbv zeta. vm_compute pr_run at 1. split; [apply pr_lt_sideb_sound; vm_compute; reflexivity|]. vm_compute. repeat split; reflexivity. Qed.
+Proof.
+  split; [apply pr_lt_sideb_sound; vm_compute; reflexivity|].
+  split; [vm_compute; reflexivity|]. vm_compute. split; reflexivity.
+Qed.
 
 (* the second side condition is needed (model-level refutation of "at most one" without it): lifetime 100 ms;
    the chunk is marked (T3 / RACK / PTO) but its retransmission is held back by the window; three miss
@@ -136,14 +138,13 @@ Proof. cbv zeta. vm_compute pr_run at 1. split; [apply pr_lt_sideb_sound; vm_com
 Example c06_lifetime_marked_and_fast_refuted :
   let s0 := pr_init 100 [(5, (c_ReliabilityTypeTimed, 100))] true false in
   let c := mkPrChunk 100 5 0 0 false true true 1 false 0 false false 0 in
-  match pr_run s0 [PrSend c 0] with
-  | Some (s1, _) =>
-      let evs := [PrMark 100; PrFrtx 100 200000000; PrRtx 100 300000000] in
-      pr_run_ok (pr_lt_side 5 false) s1 evs /\ pr_run_okb (pr_lt_sideb 5 true) s1 evs = false /\
-      pr_count_late 100 0 s1 evs = 2%nat
-  | None => False
-  end.
-Proof. cbv zeta. vm_compute pr_run at 1. split; [apply pr_lt_sideb_sound; vm_compute; reflexivity|]. vm_compute. split; reflexivity. Qed.
+  let evs := [PrSend c 0; PrMark 100; PrFrtx 100 200000000; PrRtx 100 300000000] in
+  pr_run_ok (pr_lt_side 5 false) s0 evs /\ pr_run_okb (pr_lt_sideb 5 true) s0 evs = false /\
+  pr_count_late 100 0 s0 evs = 2%nat.
+Proof.
+  split; [apply pr_lt_sideb_sound; vm_compute; reflexivity|].
+  split; vm_compute; reflexivity.
+Qed.
 
 (* Finding D21 (sim-C06-lifetime-not-enforced-fragmented-message), model level: without the first side condition
    both bounds fail.  Lifetime 100 ms, first fragment of a message whose tail is still pending: every T3 marks it
@@ -151,13 +152,9 @@ Proof. cbv zeta. vm_compute pr_run at 1. split; [apply pr_lt_sideb_sound; vm_com
 Example c06_lifetime_refuted :
   let s0 := pr_init 100 [(5, (c_ReliabilityTypeTimed, 100))] true false in
   let f1 := mkPrChunk 100 5 0 0 false true false 1 false 0 false false 0 in
-  match pr_run s0 [PrSend f1 0] with
-  | Some (s1, _) =>
-      let evs := [PrT3; PrRtx 100 1000000000; PrT3; PrRtx 100 3000000000; PrT3; PrRtx 100 7000000000] in
-      pr_run_okb (pr_lt_sideb 5 false) s1 evs = false /\ pr_count_late 100 0 s1 evs = 3%nat
-  | None => False
-  end.
-Proof. cbv zeta. vm_compute pr_run at 1. vm_compute. split; reflexivity. Qed.
+  let evs := [PrSend f1 0; PrT3; PrRtx 100 1000000000; PrT3; PrRtx 100 3000000000; PrT3; PrRtx 100 7000000000] in
+  pr_run_okb (pr_lt_sideb 5 false) s0 evs = false /\ pr_count_late 100 0 s0 evs = 3%nat.
+Proof. split; vm_compute; reflexivity. Qed.
 
 (* ---------------------------------------------------------------- (f) DCEP *)
 
